@@ -98,6 +98,21 @@ def sorted_by_num_id(call) -> bool:
     return isinstance(b, ast.Attribute) and b.attr == "num_id" and isinstance(b.value, ast.Name) and b.value.id == k.args.args[0].arg
 
 
+def final_return_checks(ctx):
+    """both layouts end with the initialiser of the instruction sequence followed by `return <instruction sequence>;`"""
+    idx = get_index(ctx.env)
+    fe = idx.func("RZILTransformer.emit_final_seq_return")
+    et = idx.enum_table("CodeFormat")
+    for fmt in et:
+        r = Runner(idx)
+        fi, outs = r.run("emit_final_seq_return", lambda: [[r.pure("s0", cls="Effect")], "PREFIX"], self_over=lambda fmt=fmt: {"code_format": EnumV("CodeFormat", fmt, None), "imm_set_effect_list": []}, args_list=True, max_runs=32)
+        for o in outs:
+            t = to_text(o.value) if o.kind == "return" else outcome_text(o)
+            body = t[len("PREFIX"):].strip() if t.startswith("PREFIX") else t
+            m = re.fullmatch(r"<(Sequence\(.*\))\.il_init_var\(\)>\s*return <(Sequence\(.*\))\.effect_var\(\)>;", body, re.S)
+            ctx.check(f"final lines [{fmt}]", bool(m) and m.group(1) == m.group(2), "<instruction_sequence initialiser> return <instruction_sequence>;", body[:120], fn_where(idx, fe))
+
+
 def compound_nodes_registered(ctx):
     """every operator node a compound assignment creates is registered through add_op (gets its unique name / a declaration)"""
     idx = get_index(ctx.env)
@@ -206,26 +221,34 @@ def r11_3(ctx):
         if cur:
             runs.append(cur)
         ctx.check(f"fbody block order [{fmt}]", bool(runs) and all(x == exp for x in runs), str(exp), str(runs), fn_where(idx, fb))
-    fe = idx.func("RZILTransformer.emit_final_seq_return")
-    src = U(fe.node)
-    ctx.check("the return statement is the last line and returns the instruction sequence", src.rstrip().endswith("return res") and "res += f'return {instruction_sequence.effect_var()};'" in src, "res += 'return <instruction_sequence>;' last", "differs", fn_where(idx, fe))
+    final_return_checks(ctx)
     fs = idx.func("RZILTransformer.emit_stmt_blocks")
     sorts = [n for n in ast.walk(fs.node) if isinstance(n, ast.Call) and call_name(n) == "sorted"]
     ctx.check("statement blocks: dependencies ordered by creation id", len(sorts) == 1 and sorted_by_num_id(sorts[0]), "sorted(<effect>.get_exec_op_list(), key=lambda v: v.num_id)", str([U(x) for x in sorts]), fn_where(idx, fs))
     appends = [U(n) for n in ast.walk(fs.node) if isinstance(n, ast.Call) and call_tail(n) == "append"]
     ctx.check("statement blocks: the effect follows its dependencies", "statements[-1].append(effect)" in appends, "statements[-1].append(effect)", str(appends), fn_where(idx, fs))
     fset = idx.func("Pure.set_num_id")
-    ok = any(isinstance(n, ast.Assign) and U(n) == "self.num_id = num_id" for n in ast.walk(fset.node))
-    ctx.check("num_id is the creation id handed out by add_op", ok and "op.set_num_id(num_id)" in U(idx.func("RZILTransformer.add_op").node), "op.set_num_id(get_op_count())", "differs", fn_where(idx, fset))
+    box = {}
+    def once_set(i):
+        o = AObj("Pure", {"num_id": -1}, label="p")
+        box["o"] = o
+        return i.call_function(fset, [7], self_obj=o)
+    Interp(idx).explore(once_set)
+    ctx.check("set_num_id stores the creation id", box["o"].fields.get("num_id") == 7, "num_id = 7", str(box["o"].fields.get("num_id")), fn_where(idx, fset))
 
 
 @rule("R11.4", "C11", "metadata: needs_hi / needs_pkt are true whenever the text mentions hi / pkt; sub-routine bodies declare them; one getter per part", min_instances=10)
 def r11_4(ctx):
     idx = get_index(ctx.env)
     fi = idx.func("RZILInstruction.__init__")
-    src = U(fi.node)
-    ctx.check("needs_hi test", "re.search('\\\\Whi\\\\W', code)" in src, r"re.search(r'\Whi\W', code)", "differs", fn_where(idx, fi))
-    ctx.check("needs_pkt test", "'pkt' in code" in src, "'pkt' in code", "differs", fn_where(idx, fi))
+    pats = [n.args[0].value for n in ast.walk(fi.node) if isinstance(n, ast.Call) and call_name(n) == "re.search" and n.args and isinstance(n.args[0], ast.Constant)]
+    ctx.check("needs_hi test", pats == [r"\Whi\W"], r"re.search(r'\Whi\W', <text of the part>)", str(pats), fn_where(idx, fi))
+    ins = [n.left.value for n in ast.walk(fi.node) if isinstance(n, ast.Compare) and isinstance(n.left, ast.Constant) and isinstance(n.ops[0], ast.In)]
+    ctx.check("needs_pkt test", ins == ["pkt"], "'pkt' in <text of the part>", str(ins), fn_where(idx, fi))
+    for n_parts, code, exp in ((1, "x = ISA2REG(hi, 's');", (True, False)), (1, "READ_REG(pkt, x)", (False, True)), (1, "this = 1;", (False, False))):
+        outs = Interp(idx).explore(lambda i, code=code: i.construct("RZILInstruction", ["X", [code], [["M"]], [""]], {}))
+        got = [(bool(o.value.fields["needs_hi"][0]), bool(o.value.fields["needs_pkt"][0])) if o.kind == "return" else outcome_text(o) for o in outs]
+        ctx.check(f"needs_hi/needs_pkt for `{code}`", got == [exp], str(exp), str(got), fn_where(idx, fi))
     # every literal in an emission template that mentions hi / pkt does so as a delimited token inside that literal
     classes = set()
     for b in NODE_BASES:
